@@ -1888,7 +1888,7 @@ class CParser:
     def _parse_postfix_expression(self) -> c_ast.Node:
         result = self._try_parse_paren_type_name()
         if result is not None:
-            typ, mark, _ = result
+            typ, mark, lparen_tok = result
             # Disambiguate between casts and compound literals:
             #   (int) x   -> cast
             #   (int) {1} -> compound literal
@@ -1898,7 +1898,7 @@ class CParser:
                 self._expect("RBRACE")
                 # A compound literal is a postfix expression: it may be
                 # followed by postfix operators, e.g. (int[]){1, 2}[0].
-                expr = c_ast.CompoundLiteral(typ, init)
+                expr = c_ast.CompoundLiteral(typ, init, self._tok_coord(lparen_tok))
             else:
                 self._reset(mark)
                 expr = self._parse_primary_expression()
